@@ -172,10 +172,17 @@ func (e *Env) Logf(format string, a ...any) {
 func (e *Env) Violate(oracle, format string, a ...any) {
 	msg := fmt.Sprintf(format, a...)
 	e.Logf("VIOLATION %s: %s", oracle, msg)
+	if stacksOnViolation && len(e.Viol) == 0 {
+		e.LogStacks("at first violation")
+	}
 	if len(e.Viol) < 20 {
 		e.Viol = append(e.Viol, Violation{Oracle: oracle, Msg: msg, Seq: e.Seq, SimNs: e.SimNs()})
 	}
 }
+
+// SIM_STACKS=1: dump the bubble's goroutine stacks into the event log at the
+// first violation of a run (debugging aid; replay/one print the log).
+var stacksOnViolation = os.Getenv("SIM_STACKS") != ""
 
 // Probe counts that a rare condition was reached.
 func (e *Env) Probe(name string) { e.Probes[name]++ }
